@@ -429,6 +429,7 @@ func checkC03Pairing(c *Ctx, et interface{}) {
 		}
 	}
 	checkInPlaceFilter(c, "R6")
+	checkSeatMapCtor(c, "R6")
 
 	// R4 add path
 	for _, f := range adders {
@@ -830,4 +831,63 @@ func checkInPlaceFilter(c *Ctx, rule string) {
 		}
 	}
 	c.Count("appends_checked_for_in_place_overwrite", nApp)
+}
+
+// checkSeatMapCtor: the seat-map constructor (a function making an []int of the given
+// length, whose result is stored as a table's seat map) marks every seat unset.
+func checkSeatMapCtor(c *Ctx, rule string) {
+	p := c.P
+	n := 0
+	seen := map[*ssa.Function]bool{}
+	for _, ss := range p.FieldStores("TableState", "SeatMap") {
+		v := ss.Val.Strip()
+		var f *ssa.Function
+		v.Contains(func(x *Sym) bool {
+			if x.Kind == "call" && x.Call != nil {
+				if sc := x.Call.Common().StaticCallee(); sc != nil && p.IsRepoFunc(sc) && sc.Signature.Recv() == nil && len(sc.Params) == 1 && sc.Signature.Results().Len() == 1 && typeShort(sc.Signature.Results().At(0).Type()) == "[]int" {
+					f = sc
+				}
+			}
+			return false
+		})
+		if f == nil || seen[f] {
+			continue
+		}
+		seen[f] = true
+		n++
+		okLen, nFill := false, 0
+		d := ""
+		for _, b := range f.Blocks {
+			for _, in := range b.Instrs {
+				switch x := in.(type) {
+				case *ssa.MakeSlice:
+					okLen = symIsParam(p.Sym(x.Len), f.Params[0])
+				case *ssa.Store:
+					a := p.Sym(x.Addr).Strip()
+					if a.Kind != "index" {
+						continue
+					}
+					nFill++
+					iv := a.Args[1].Strip()
+					k, isK := p.Sym(x.Val).ConstInt()
+					full := iv.Kind == "ind" && iv.Ind.Step == 1 && !iv.Ind.Incl && iv.Ind.Op == token.LSS && iv.Ind.Bound != nil &&
+						(symIsParam(iv.Ind.Bound, f.Params[0]) || (iv.Ind.Bound.IsCall("len") && iv.Ind.Bound.Strip().Args[0].Strip().String() == a.Args[0].Strip().String()))
+					if full {
+						z, isZ := iv.Ind.First.ConstInt()
+						full = isZ && z == 0
+					}
+					if !isK || k != -1 {
+						d = "a seat is initialised to " + p.Sym(x.Val).String() + ", not the unset value"
+					} else if !full {
+						d = "not every seat of a new seat map is marked unset (" + iv.String() + ")"
+					}
+				}
+			}
+		}
+		if d == "" && (!okLen || nFill == 0) {
+			d = "a new seat map is not one unset entry per seat"
+		}
+		c.Check(d == "", rule, "seat-map-constructor:"+f.Name(), p.Pos(f.Pos()), "one unset entry per seat", "new seat map: "+d)
+	}
+	c.Min(rule, "seat-map constructors", n, 1)
 }
